@@ -43,6 +43,15 @@ Theorem C06_national_refuted : exists p,
   tokenize plain_dialect plain_uni true (print_str KNational p) <> LexOk [(TStr KNational p, (1, 1))].
 Proof. exact national_quote_refuted. Qed.
 
+(** U&'...' round-trips for every payload of Unicode scalar values (every Rust [String] is
+    one), in every dialect with Unicode string literals: quotes doubled, backslashes doubled,
+    ASCII raw, everything else as \XXXX or \+XXXXXX with upper-case hex digits. *)
+Theorem C06_unicode : forall d u p, d_unicode_lit d = true ->
+  Forall (fun c => valid_scalar c = true) p ->
+  tokenize d u true (print_str KUnicode p) = LexOk [(TStr KUnicode p, (1, 1))].
+Proof. exact unicode_one_token. Qed.
+Print Assumptions C06_unicode.
+
 (** The scanner-level lemmas the above rest on hold for every quote character, look-ahead
     state and continuation (so they also cover "never changes neighbouring syntax"). *)
 Theorem C06_quote_doubling_scanner : forall q, (q =? cBSL) = false -> forall bs p prev ncq rest,
